@@ -1,11 +1,13 @@
 (** C11 - placeholder values reflect the bar state at draw time.
 
     Transcribes
-      - the key dispatch of ProgressStyle::format_state      (src/style.rs:227-389)
-      - push_line / WideElement::expand                       (src/style.rs:392-482)
-      - current_tick_str / get_tick_str / get_final_tick_str  (src/style.rs:173-189)
-      - PaddedStringDisplay (left aligned; ASCII content)     (src/style.rs:717-754)
-      - TabRewriter                                           (src/style.rs:422-430)
+      - ProgressStyle::format_state: the loop over the template parts incl. NewLine parts
+        (multi-line templates), the key dispatch, the final `if !cur.is_empty()`
+                                                              (src/style.rs:234-396)
+      - push_line / WideElement::expand                       (src/style.rs:399-482)
+      - current_tick_str / get_tick_str / get_final_tick_str  (src/style.rs:174-189)
+      - PaddedStringDisplay (left aligned; ASCII content)     (src/style.rs:727-769)
+      - TabRewriter                                           (src/style.rs:428-435)
       - the state changes, tracker fan-out and draw of every ProgressBar update
         (src/progress_bar.rs:221-410, src/state.rs:40-149,218-240)
     The formatters (HumanCount, HumanBytes, ..., format_bar, f32/f64 Display) are NOT
@@ -48,7 +50,7 @@ Definition dec_text (n : N) : text := uint_text (N.to_uint n).
 
 Definition spaces (n : N) : text := N.iter n (cons 32) [].
 
-(** [s.replace('\t', &" ".repeat(w))]  (state.rs:377, style.rs:427) *)
+(** [s.replace('\t', &" ".repeat(w))]  (state.rs:377, style.rs:433) *)
 Definition expand_tabs (w : N) (t : text) : text :=
   flat_map (fun c => if c =? 9 then spaces w else [c]) t.
 
@@ -58,7 +60,7 @@ Definition expand_tabs (w : N) (t : text) : text :=
 Definition char_width (c : N) : N := if (c <? 32) || (c =? 127) then 0 else 1.
 Definition text_width (t : text) : N := fold_right (fun c a => char_width c + a) 0 t.
 
-(** PaddedStringDisplay { align: Left, truncate: false }  (style.rs:724-753) *)
+(** PaddedStringDisplay { align: Left, truncate: false }  (style.rs:734-769) *)
 Definition pad_left (t : text) (w : N) : text :=
   let cols := text_width t in
   let excess := cols - w in
@@ -89,7 +91,7 @@ Definition trim_end (t : text) : text := rev (drop_ws (rev t)).
 Definition replace0 (by_ : text) (t : text) : text :=
   flat_map (fun c => if c =? 0 then by_ else [c]) t.
 
-(** [expanded.split('\n')] (style.rs:409-417: the loop pushes exactly the pieces of the split) *)
+(** [expanded.split('\n')] (style.rs:416-424: the loop pushes exactly the pieces of the split) *)
 Fixpoint split_nl (t : text) (cur : text) : list text :=
   match t with
   | [] => [rev cur]
@@ -152,7 +154,7 @@ Definition view_of (s : snapshot) : view :=
   {| v_pos := s_pos s; v_len := s_len s; v_finished := s_finished s |}.
 
 (** ------------------------------------------------------------------ keys *)
-(** the arms of [match key.as_str()] in source order (style.rs:252-356) *)
+(** the arms of [match key.as_str()] in source order (style.rs:260-361) *)
 Inductive bkey :=
 | KWideBar | KBar | KSpinner | KWideMsg | KMsg | KPrefix | KPos | KHumanPos | KLen | KHumanLen
 | KPercent | KPercentPrecise | KBytes | KTotalBytes | KDecimalBytes | KDecimalTotalBytes
@@ -196,7 +198,7 @@ Inductive wide := WBar | WMsg.
 
 Definition per_s : text := [47; 115].    (* "/s" *)
 
-(** get_tick_str (style.rs:181-183) / get_final_tick_str (186-188) / current_tick_str (173-178).
+(** get_tick_str (style.rs:182-184) / get_final_tick_str (187-189) / current_tick_str (174-179).
     [idx as usize] is the identity on a 64 bit target. *)
 Definition get_tick_str (ticks : list text) (idx : N) : text :=
   nth (N.to_nat (idx mod (N.of_nat (List.length ticks) - 1))) ticks [].
@@ -210,7 +212,7 @@ Section Render.
   Variable ticks : list text.        (* style.tick_strings *)
 
   (** one arm of the match: the text pushed into [buf] and the new value of [wide], if set.
-      [pos] / [len] are the two locals computed before the loop (style.rs:237-238). *)
+      [pos] / [len] are the two locals computed before the loop (style.rs:244-245). *)
   Definition builtin_value (s : snapshot) (b : bkey) (width : option N) : text * option wide :=
     let pos := s_pos s in
     let len := match s_len s with Some l => l | None => pos end in     (* len().unwrap_or(pos) *)
@@ -237,7 +239,7 @@ Section Render.
     | KElapsedPrecise => (f_fdur F (o_elapsed o), None)
     | KElapsed => (f_hdur F (o_elapsed o), None)
     | KPerSec =>
-        (* with a width W the precision of the float is W as well (style.rs:308-323) *)
+        (* with a width W the precision of the float is W as well (style.rs:318-333) *)
         (match width with
          | Some w => f_hfloat F (Some w) (o_per_sec o) ++ per_s
          | None => f_hfloat F None (o_per_sec o) ++ per_s
@@ -260,7 +262,7 @@ Section Render.
 End Render.
 
 (** ------------------------------------------------------------------ custom keys *)
-(** A ProgressTracker: state type T with tick / reset / write (style.rs:763-773); [now] in ns. *)
+(** A ProgressTracker: state type T with tick / reset / write (style.rs:779-788); [now] in ns. *)
 Record tracker_ops (T : Type) := {
   t_tick : T -> view -> N -> T;
   t_reset : T -> view -> N -> T;
@@ -760,7 +762,7 @@ Definition table_formatters (t : ftable) : formatters :=
      f_percent := fun p x => tlookup t 8 x p;
      f_bar := fun x w => tlookup t 9 x w |}.
 
-(** the trackers of the harness: a stateless closure (the blanket impl for Fn, style.rs:775-790:
+(** the trackers of the harness: a stateless closure (the blanket impl for Fn, style.rs:796-811:
     tick and reset do nothing), a logger that records every event, a probe that writes nothing *)
 Inductive event := EvTick (now : N) (v : view) | EvReset (now : N) (v : view).
 Inductive tkind := TClosure | TLogger | TProbe.
